@@ -771,11 +771,23 @@ def _run_element_tensor(cfg, recipe, rep):
                         '%s: no exception, got %r' % (lab, res))
             return None
         if want == 'either':
-            rep.skipped += 1
+            # same number of entries, other shape: a refusal, or an element whose array equals
+            # np.asarray(inp) after the ndmin promotion (leading axes of length 1) EXACTLY in
+            # shape and values -- element(inp) wraps / casts inp, it never rearranges it
             if st == 'exc':
                 return None
-            exp = np.asarray(expected).reshape(sh)
-            _check_values(rep, site, lab, res, S, exp, dt)
+            if res is inp:
+                rep.bad(site, 'non_member_returned_itself', '%s: element(x) is x' % lab)
+                return res
+            exp = np.array(expected, ndmin=len(sh))
+            st2, got = _try(lambda: _arr(res))
+            if st2 == 'ok' and got.shape != exp.shape:
+                rep.bad(site, 'input_rearranged',
+                        '%s: accepted and turned into an array of shape %s; np.asarray(inp) has '
+                        'shape %s (%s after ndmin promotion), the space has shape %s'
+                        % (lab, got.shape, np.shape(expected), exp.shape, sh))
+                return res
+            _check_values(rep, site, lab, res, S, exp.astype(dt), dt)
             return res
         if st == 'exc':
             rep.bad(site, 'raises:' + type(res).__name__, '%s: raises %r' % (lab, res))
@@ -890,6 +902,32 @@ def _run_element_tensor(cfg, recipe, rep):
                     case('list of shape %s' % (wsh,), wv.tolist(), 'raise', sig='wrong-shape')
             else:
                 case('ndarray of shape %s' % (wsh,), wv, 'either', wv, sig='same-size-shape')
+        # near-miss shapes: same entries, singleton axes elsewhere / another number of leading
+        # singleton axes / equal-length axes transposed; offered as ndarray, nested list and as
+        # an ELEMENT of the sibling space of that shape
+        for wsh in M.near_miss_shapes(sh):
+            wv = M.values(wsh, dt, salt=4)
+            case('ndarray of near-miss shape %s' % (wsh,), wv, 'either', wv, sig='near-miss')
+            if wv.size:
+                case('nested list of near-miss shape %s' % (wsh,), wv.tolist(), 'either', wv,
+                     sig='near-miss-list')
+            if wsh != ():
+                sib = odl.tensor_space(wsh, dtype=dt)
+                x = sib.element(wv.copy())
+                rep.evals += 1
+                if _try(lambda: bool(x in S))[1] is not False:
+                    rep.bad('contains:' + _cls(S), 'element_of_other_shape_is_member',
+                            '(element of %r) in %s is not False' % (sib, cfg['row']))
+                case('element of the sibling space of near-miss shape %s' % (wsh,), x, 'either',
+                     wv, sig='near-miss-element')
+        if len(sh) >= 2 and len(set(sh)) < len(sh) and vals.size:
+            # transposition of equal-length axes keeps the shape: the values must not move
+            axes = list(range(len(sh)))
+            i, j = [(a, b) for a in axes for b in axes if a < b and sh[a] == sh[b]][0]
+            axes[i], axes[j] = axes[j], axes[i]
+            tv = np.transpose(vals, axes)
+            case('transposed view (axes %d,%d swapped)' % (i, j), tv, 'values', tv.astype(dt),
+                 sig='transposed')
 
     # --- odl.vector: "the space type is inferred from the input data"
     if recipe[0] == 'TS' and recipe[3] is None and recipe[5] == 2.0 and len(sh) >= 1:
